@@ -150,7 +150,7 @@ def load_known():
 
 
 def write_replay(prop, v):
-    d = os.path.join(HOME, "replays", prop)
+    d = os.path.join(os.environ.get("VERIF_REPLAY_DIR") or os.path.join(HOME, "replays"), prop)
     os.makedirs(d, exist_ok=True)
     sha = case_sha(prop, v.get("sig"), v.get("case"))
     path = os.path.join(d, sha + ".json")
@@ -211,7 +211,7 @@ def write_evidence(ctx, nviol, extra=None):
     }
     if extra:
         doc.update(extra)
-    d = os.path.join(HOME, "evidence")
+    d = os.environ.get("VERIF_EVIDENCE_DIR") or os.path.join(HOME, "evidence")
     os.makedirs(d, exist_ok=True)
     tmp = os.path.join(d, ctx.prop + ".json.tmp")
     with open(tmp, "w", encoding="utf-8") as f:
